@@ -149,7 +149,7 @@ def choose(ctx, tuples):
     # options: most runs plain (car, no rejection: cheap), a few with each option
     for i, s in enumerate(scs):
         s.update({"seed": ctx.seed * 1000 + i, "reject": False, "k_filter": False, "ns2add": 0, "append": False,
-                  "sat": [], "compare": i % 3 == 0, "wrot": None})
+                  "sat": [], "compare": i % 3 == 0, "wrot": None, "stale": i % 2 == 1})
         m = i % 8
         if m == 1:
             s["ns2add"] = 37
@@ -180,13 +180,13 @@ def choose(ctx, tuples):
                   {"ns": 13000, "nbatch": 4096, "nproc": 2, "reject": True, "k_filter": True, "compare": False, "ns2add": 11}]
     for j, e in enumerate(extra[:1] if ctx.quick else extra):
         e = dict({"seed": ctx.seed * 1000 + 500 + j, "ns2add": 0, "append": False, "sat": [], "wrot": None,
-                  "cls": "reject"}, **e)
+                  "cls": "reject", "stale": j % 2 == 0}, **e)
         scs.append(e)
     # byte identity across worker counts: same input (seed), different nproc
     base = {"ns": 7000, "nbatch": 3072, "reject": False, "k_filter": False, "ns2add": 0, "append": False, "sat": [],
             "compare": False, "wrot": None, "seed": ctx.seed * 1000 + 900, "cls": "identity"}
     for npx in ([1, 2, 5] if ctx.quick else [1, 2, 3, 4, 5, 6, 7, 8]):
-        scs.append(dict(base, nproc=npx, group="id7000"))
+        scs.append(dict(base, nproc=npx, group="id7000", stale=npx % 2 == 0))
     if not ctx.quick:
         b2 = dict(base, ns=5000, nbatch=4096, seed=ctx.seed * 1000 + 901)
         for npx in [1, 2, 3, 4, 6, 8]:
@@ -195,6 +195,11 @@ def choose(ctx, tuples):
 
 
 def model(ctx):
+    # vacuity control: a preparation step that does not truncate a longer leftover must be rejected by FinalLength
+    r = tlc.run("mc/MC_DestripeFile.tla", "mc/DestripeFile_notrunc.cfg", workers=4, timeout=900)
+    ctx.tlc(r, "what-if: leftover not truncated")
+    if r.ok or r.invariant_violated != "FinalLength":
+        raise tlc.TLCError("vacuity: the what-if variant 'notrunc' must violate FinalLength")
     runs = [("mc/DestripeFile_quick.cfg", 8)] if ctx.quick else \
            [("mc/DestripeFile_thorough.cfg", 16), ("mc/DestripeFile_mid.cfg", 16), ("mc/DestripeFile_wide.cfg", 16)]
     for cfg, wk in runs:
@@ -220,7 +225,8 @@ def judge(ctx, scs, results):
     for v in verdicts:
         i, k = owner[v["index"]]
         sc = scs[i]
-        desc = f"ns={sc['ns']} nbatch={sc['nbatch']} nproc={sc['nproc']} ns2add={sc['ns2add']} append={sc['append']} run={k}"
+        desc = (f"ns={sc['ns']} nbatch={sc['nbatch']} nproc={sc['nproc']} ns2add={sc['ns2add']} append={sc['append']} "
+                f"leftovers={bool(sc.get('stale'))} run={k}")
         if v["prop"]:
             exc = results[i]["runs"][k]["exc"]
             ctx.violation("destripe:" + v["prop"].split("(")[0],
